@@ -575,6 +575,43 @@ func ruleParserWellFormed(w *World, r *RuleResult) {
 	} else {
 		r.bad(key, w.pos(f.Pos()), "a finite value can be returned without the exponent range check of setExponent")
 	}
+	// an exponent outside the package limits must not leave a finite-looking receiver behind
+	{
+		key := "(*Decimal).setString | no finite value is left when the exponent is out of range"
+		okReset, nSE := false, 0
+		for _, pf := range w.parserFuncs() {
+			for _, se := range w.callsTo(pf, "(*Decimal).setExponent") {
+				nSE++
+				for _, st := range storesIn(pf) {
+					if !w.recvFieldStore(pf, st, "Form") {
+						continue
+					}
+					k, isK := st.Val.(*ssa.Const)
+					if !isK || (ci(k) != nan && ci(k) != snan) {
+						continue
+					}
+					// ... under a test of the System* bits of that call's result
+					if w.underSystemTest(st.Block(), 0) {
+						for _, b := range pf.Blocks {
+							if iff, isIf := b.Instrs[len(b.Instrs)-1].(*ssa.If); isIf {
+								if c, isC := iff.Cond.(*ssa.Call); isC && len(c.Common().Args) > 0 && c.Common().Args[0] == ssa.Value(se) {
+									okReset = true
+								}
+							}
+						}
+					}
+				}
+			}
+		}
+		switch {
+		case nSE == 0:
+			r.ok(key, w.pos(top.Pos()), "the parser does not call setExponent itself: not decided for this shape", false)
+		case okReset:
+			r.ok(key, w.pos(top.Pos()), "Form is set back to NaN where setExponent reported a System* condition", true)
+		default:
+			r.bad(key, w.pos(top.Pos()), "Form = Finite is stored before setExponent; when that fails with a System* condition the receiver keeps a finite coefficient with exponent 0 (SetString(\"7e100001\") returns an error and leaves 7)")
+		}
+	}
 	// Context.SetString: nil Decimal and zero flags on error
 	if g := w.fn("(*Context).SetString"); g != nil {
 		key := "(*Context).SetString | no partial value on error"
